@@ -309,7 +309,7 @@ fn main() {
             }
             println!("{}", json!({"summary": {"documents": ndocs, "requests": s.requests, "distinct_nontrivial": distinct.len(),
                 "documents_by_kind": modes, "responses_by_method": s.tags, "requests_by_position_class": s.classes,
-                "panics_recorded": drv::panic_count()}}));
+                "panics_recorded": drv::panic_count(), "panic_messages": drv::PANICS.lock().map(|p| p.iter().cloned().collect::<std::collections::BTreeSet<_>>()).unwrap_or_default()}}));
             s.srv.cleanup();
             std::process::exit(0);
         }
@@ -343,6 +343,10 @@ fn main() {
                 println!("{}", json!({"doc": name, "t": cps, "obs": obs}));
             }
             srv.cleanup();
+            std::process::exit(0);
+        }
+        "methods" => {
+            println!("{}", json!({"position": POS_METHODS, "range": RANGE_METHODS}));
             std::process::exit(0);
         }
         "one" => {
